@@ -150,6 +150,7 @@ def iter_tests(spec):
             elif node['t'] == 'suite':
                 for ch in node.get('ch', []):
                     yield from walk(ch, layer, level)
+            # 'doctest' / 'docfile' nodes are not modelled here
         if m.get('use_test_suite', True):
             yield from walk(m['suite'], None, 1)
         else:
